@@ -691,6 +691,11 @@ pub fn run(ctx: &mut Ctx, r: &mut Rng, tier: &str) {
         let seed = u64::from_str_radix(sd.trim_start_matches("0x"), 16).unwrap();
         let mut rr = Rng(seed);
         let sc = gen_scen(&mut rr, 8);
+        if let Ok(dir) = std::env::var("C04_DUMP_DIR") {
+            let _ = std::fs::create_dir_all(&dir);
+            let _ = std::fs::write(format!("{}/network.json", dir), serde_json::to_string(&sc.net).unwrap());
+            let _ = std::fs::write(format!("{}/trains.json", dir), serde_json::to_string(&sc.trains).unwrap());
+        }
         run_scen(ctx, &sc, seed, true);
         return;
     }
